@@ -98,6 +98,97 @@ def html_cat_known(cat_text):
     return ''.join(''.join(m) for m in re.findall(r'([\w\\/()]+)(\[.+?\])*', cat_text)) != cat_text
 
 
+# ---- what the Prolog formats carry of a tree, stated independently of the printers (for the Lean reader
+#      `Read.decProlog`, theorems prolog_en_decode / prolog_ja_decode, applied to the REAL text) ----------
+
+EN_FUNCTOR = {'fa': 'fa', 'ba': 'ba', 'fx': 'fc', 'fc': 'fc', 'bx': 'bxc', 'gfc': 'gfc', 'gbx': 'gbx', 'rp': 'rp', 'lp': 'lx',
+              'conj': 'conj', 'conj2': 'conj'}
+JA_FUNCTOR = {'SSEQ': 'sseq', '>': 'fa', '<': 'ba', '>B': 'fc', '<B1': 'bc1', '<B2': 'bc2', '<B3': 'bc3', '<B4': 'bc4', '>Bx1': 'fx1',
+              '>Bx2': 'fx2', '>Bx3': 'fx3', 'ADNext': 'adnext', 'ADNint': 'adnint', 'ADV0': 'adv0', 'ADV1': 'adv1', 'ADV2': 'adv2',
+              'OTHER': 'other'}
+
+
+def en_cat(c):
+    if c.is_atomic:
+        b = c.base.lower()
+        named = {'.': 'period', ',': 'comma', ':': 'colon', ';': 'semicolon'}
+        if b in named:
+            return named[b]
+        f = str(c.feature)
+        return b if f == '' else f'{b}:{f}'
+    return f'({en_cat(c.left)}{c.slash}{en_cat(c.right)})'
+
+
+def ja_cat(c):
+    if c.is_functor:
+        return f'({ja_cat(c.left)}{c.slash}{ja_cat(c.right)})'
+    items = getattr(c.feature, 'items', None)
+    feat = dict(items()) if items is not None else {}
+    return c.base.lower() + (':' + feat['case'].lower() if 'case' in feat else '')
+
+
+def enc_pleaf(cat, fields):
+    return f'L {enc_str(cat)} {len(fields)}' + ''.join(' ' + enc_str(f) for f in fields)
+
+
+def enc_pnode(functor, cat, extra, kids):
+    return (f'N {enc_str(functor)} {enc_str(cat)} {len(extra)}' + ''.join(' ' + enc_str(e) for e in extra)
+            + f' {len(kids)}' + ''.join(' ' + k for k in kids))
+
+
+def pview_en(t):
+    if t.is_leaf:
+        tok = t.token
+        return enc_pleaf(en_cat(t.cat), [tok['word'], tok.get('lemma', 'XX'), tok.get('pos', 'XX'), tok.get('chunk', 'XX'),
+                                         tok.get('entity', 'XX')])
+    if t.is_unary:
+        return enc_pnode('lx', en_cat(t.cat), [en_cat(t.children[0].cat)], [pview_en(t.children[0])])
+    l, r = t.children
+    f = EN_FUNCTOR[t.op_string]
+    rc = en_cat(r.cat)
+    kids = [pview_en(l), pview_en(r)]
+    if t.op_string == 'conj2':
+        return enc_pnode(f, en_cat(t.cat), [rc + '\\' + rc], [enc_pnode('conj', rc + '\\' + rc, [rc], kids)])
+    if t.op_string == 'conj':
+        return enc_pnode(f, en_cat(t.cat), [en_cat(t.cat.left)], kids)
+    if t.op_string == 'lp':
+        return enc_pnode(f, en_cat(t.cat), [rc], [enc_pnode('lp', rc, [], kids)])
+    return enc_pnode(f, en_cat(t.cat), [], kids)
+
+
+def pview_ja(t):
+    if t.is_leaf:
+        tok = t.token
+        tags = [tok.get(k, '*') for k in ('pos', 'pos1', 'pos2', 'pos3')]
+        pos = '*' if all(x == '*' for x in tags) else '/'.join(tags)
+        return enc_pleaf(ja_cat(t.cat), [tok.get('surf', tok['word']), tok.get('base', '*'), pos, tok.get('inflectionForm', '*'),
+                                         tok.get('inflectionType', '*')])
+    return enc_pnode(JA_FUNCTOR[t.op_symbol], ja_cat(t.cat), [], [pview_ja(c) for c in t.children])
+
+
+def prolog_guard(lang, trees):
+    """the hypotheses of the decode theorems, on the real objects"""
+    for t in trees:
+        for tok in t.tokens:
+            vals = ([tok.get('word', ''), tok.get('lemma', 'XX')] if lang == 'en' else
+                    [tok.get('surf', tok.get('word', '')), tok.get('base', '*'), tok.get('pos', '*'), tok.get('pos1', '*'), tok.get('pos2', '*'),
+                     tok.get('pos3', '*'), tok.get('inflectionForm', '*'), tok.get('inflectionType', '*')])
+            raw = [tok.get('pos', 'XX'), tok.get('chunk', 'XX'), tok.get('entity', 'XX')] if lang == 'en' else []
+            if any(v.endswith('\\') for v in vals + raw) or any("'" in v for v in raw):
+                return False
+
+        def cats(n):
+            yield n.cat
+            if not n.is_leaf:
+                for c in n.children:
+                    yield from cats(c)
+        for c in cats(t):
+            text = en_cat(c) if lang == 'en' else ja_cat(c)
+            if any(ch in text[1:-1].replace('(', '').replace(')', '') for ch in ' \n,') or text[:1] in (' ', '\n'):
+                return False
+    return True
+
+
 def walk_nodes(t):
     if not t.is_leaf:
         yield t
@@ -158,6 +249,12 @@ def run(ctx):
                 cases.append(('jigg', f'jigg {1 if lang == "ja" else 0} {enc_batch}', 'ok ' + X.canon(etree.fromstring(out.encode('utf-8'))), desc))
             if out is None:
                 continue
+            if f == 'prolog' and prolog_guard(lang, [t for _, t in flat]):
+                try:
+                    want_p = f'ok {len(flat)}' + ''.join(f' || {n} ' + (pview_en(t) if lang == 'en' else pview_ja(t)) for n, t in flat)
+                    cases.append(('prolog_dec', 'prolog_dec ' + enc_str(out), want_p, desc))
+                except KeyError:
+                    pass
             if f == 'deriv' and words_ok:
                 # the Lean reader of the format (theorem deriv_decode) applied to the REAL text
                 def dview(t):
